@@ -126,7 +126,7 @@ Definition scan_version_directive_number (mk : marker) : M N :=
      | S f =>
        c <- look_ch ops ;;
        if is_digit c then
-         if 9 <? len + 1 then fail 61 mk
+         if VERSION_DIGITS_MAX <? len + 1 then fail 61 mk
          else
            let v := val * 10 + (c - 48) in
            (if 4294967295 <? v then panic 120 else ret tt) ;;;
